@@ -61,10 +61,11 @@ func VerifC19MiddlewareSettles() {
 	bank.SetBalance(models.ModuleAddress(erc20types.ModuleName), denom, verifAmount("escrow", 100))
 	tok.SetBalance(verifContract, aHex, tokA.BigInt())
 
-	channels := []string{"channel-0", "channel-7"}
-	srcA := channels[rt.Choose("A.sourceChannel", 2)]
-	dstA := channels[rt.Choose("A.destinationChannel", 2)]
-	srcB := channels[rt.Choose("B.sourceChannel", 2)]
+	channels := []string{"channel-0", "channel-7", "channel-70"}
+	nCh := rt.Bound("channelIds", 2, 3)
+	srcA := channels[rt.Choose("A.sourceChannel", nCh)]
+	dstA := channels[rt.Choose("A.destinationChannel", nCh)]
+	srcB := channels[rt.Choose("B.sourceChannel", nCh)]
 	seqA, seqB := rt.U64("A.sequence"), rt.U64("B.sequence")
 	rt.Assume(rt.Or(srcA != srcB, seqA != seqB))
 	ek.SetIBCTransferRelation(ctx, srcA, seqA)
